@@ -39,10 +39,10 @@ def section(fn):
 SPEC = dict(
     level="exploration",
     rule=("quick: ALL 2^8 subsets of {README.md, README.rst, setup.py, setup.cfg, pyproject.toml, bumpver.toml, "
-          ".bumpver.toml, pycalver.toml} with each config-capable file {absent, empty, unrelated content} and the other "
-          "files present with content (8 x 3^5 = 1,944 layouts) + layouts with an existing bumpver section; thorough: "
-          "config-capable files {absent, empty, unrelated, existing section, unrelated CRLF/Unicode/no final newline} "
-          "(8 x 5^5 = 25,000); each layout: init --dry, init, show, init again; non-trivial+distinct = distinct "
+          ".bumpver.toml, pycalver.toml} with each config-capable file {absent, empty, unrelated content, unrelated "
+          "content without final newline} and the other files present with content (8 x 4^5 = 8,192 layouts) + layouts "
+          "with an existing bumpver section; thorough: config-capable files {absent, empty, unrelated, no final "
+          "newline, existing section, unrelated CRLF/Unicode/no final newline} (8 x 6^5 = 62,208); each layout: init --dry, init, show, init again; non-trivial+distinct = distinct "
           "(layout, file chosen) pairs"),
     assumptions=["prior content of config-capable files is valid TOML/INI (init appends to it)",
                  "the initial version is '<current UTC year>.1001-alpha'"],
@@ -56,7 +56,7 @@ SPEC = dict(
 
 
 def cases(ctx):
-    opts = ["absent", "empty", "unrelated"] if ctx.quick else ["absent", "empty", "unrelated", "section", "hard"]
+    opts = ["absent", "empty", "unrelated", "nonl"] if ctx.quick else ["absent", "empty", "unrelated", "nonl", "section", "hard"]
     k = 0
     for plain in itertools.product([False, True], repeat=3):
         for cfgs in itertools.product(opts, repeat=5):
@@ -89,6 +89,8 @@ def run_case(ctx, case):
             files[fn] = UNRELATED[fn]
         elif opt == "hard":
             files[fn] = UNRELATED_HARD[fn]
+        elif opt == "nonl":
+            files[fn] = UNRELATED[fn].rstrip("\n")   # prior content whose last line has no newline
         elif opt == "section":
             files[fn] = UNRELATED[fn] + "\n" + section(fn) if fn != ".bumpver.toml" else section(fn)
             sections.append(fn)
